@@ -22,6 +22,14 @@ CLAIMS = {
         technique="TLA+ spec (Topology.tla) exhaustively checked by TLC; tables and pair verdicts compared with the implementation (B3 exact)",
         engine="tlc-table",
     ),
+    "C15": dict(
+        category="model_checking",
+        text="Every documented line-shape formula (16 particle models, Gamma/Gamma2, Bprime/Bprime_q2/barrier_factor, the Blatt-Weisskopf polynomial and its generator, break-up momenta, the ad-hoc effective mass) is transcribed once, from the doc strings, as an expression tree in spec/LineShape.tla. TLC evaluates the rational sub-language exactly (limb arithmetic, spec/Barrier.tla) on a lattice of kinematic points with rational break-up momenta - one state per (formula, L = 0..8, lattice point), 12 692 cells quick / 78 156 thorough - and checks the theorems the property states as invariants (Im > 0, i/(m0 Gamma0) at the pole, Gamma(m0)=Gamma0, B(q0)=1, table = |theta_L(i q d)|^2 from the reverse Bessel polynomial, q^2-based = q-based above threshold, finite below, FlatteC = conj Flatte). The real tf_pwa is held to TLC's output: coefficient table / generator / reverse Bessel polynomials as exact integers for L = 0..8, every exactly evaluated lattice cell (1e-8 rel + 1e-12 abs), and the spec's trees - through a generic one-line-per-operator evaluator - at seeded random continuous points against both the low-level functions and the registered particle models, plus the sympy denominators x numeric line shape = 1.",
+        design_ref="DESIGN.md 5/C15, 8; notes/C15.md",
+        note="Exhaustive and exact on the discrete part (formula x L x lattice point; integer tables). The continuous quantifier (masses, m0, Gamma0, daughter masses, d) is SAMPLED (seeded; quick 3 parameter sets x 60 masses, thorough 16 x 500 per implementation and L). Trusted base: the transcription of the doc strings into trees (validated by the TLC theorems and by agreeing with the code wherever the code is right), the 20-line numpy evaluator (self-tested against TLC's exact value on every evaluable cell), sympy.lambdify. Not judged: undocumented options (sheet, width_norm, running_width=False), models without a documented closed formula, roots of the barrier polynomial below threshold (the documented formula itself is singular there).",
+        technique="TLA+ expression trees of the documented formulas (LineShape.tla, Barrier.tla) evaluated exactly by TLC on a rational lattice with the property's theorems as invariants; trees, exact lattice values and integer tables compared with the implementation (B3)",
+        engine="tlc-table",
+    ),
     "C16": dict(
         category="model_checking",
         text="spec/Params.tla is an implementation-shaped model of VarsManager (one variable per attribute, one action per public method, bodies transcribed from the code, histories restricted by a phase variable to the order a configuration applies operations). TLC checks every stated property of C16 (FixedOnlyExplicit, TiedEqual, TiedCountOnce, TieKeepsFree, ReadWriteIdentity, ComplexPreserved, StandardForm, BoundInverse, FitStepLocal) exhaustively up to the depth bound on three configurations; the labelled state graph is dumped and its edges are executed on a real VarsManager (projection compared and the observers of C16 evaluated on the real object after every step), long TLC-simulated behaviours are replayed the same way, and TLC counterexamples are replayed on the real code before they count. Analytic bound maps are checked numerically.",
@@ -161,9 +169,7 @@ CLAIMS = {
 }
 
 NOT_YET = "check not built yet in this round (planned in DESIGN.md 5); not claimed until its specification is bound to the code"
-NA = {
-    "C15": "pure numeric identities of continuous line-shape functions: no state, transition or finite case analysis for a TLA+ specification to decide (DESIGN.md 8)",
-}
+NA = {}
 
 
 def main():
